@@ -192,9 +192,9 @@ func TestCountFieldByteOrder(t *testing.T) {
 type andxCase struct {
 	Struct   string                     `json:"struct"`
 	Fields   map[string]json.RawMessage `json:"fields,omitempty"`
-	Command  uint8  `json:"andx_command"`
-	Reserved uint8  `json:"andx_reserved"`
-	Offset   uint16 `json:"andx_offset"`
+	Command  uint8                      `json:"andx_command"`
+	Reserved uint8                      `json:"andx_reserved"`
+	Offset   uint16                     `json:"andx_offset"`
 }
 
 func checkAndX(c andxCase) []vf.Finding {
